@@ -248,16 +248,20 @@ fn gen_codes(rng: &mut Rng, out: &mut Vec<String>) {
 }
 
 fn gen_idx(rng: &mut Rng, out: &mut Vec<String>) {
-    let n = match rng.below(10) {
+    let n = match rng.below(12) {
         0 => 1,
         1 => 2,
         2 => 4,
         3 => 8,
+        // larger alphabets (amino acids, letters): any size is in the quantifier
+        4 => *rng.pick(&[9usize, 12, 16, 17, 20, 21, 26]),
         _ => *rng.pick(&[3usize, 3, 5, 5, 6, 7]),
     };
     let alpha = alphabet(rng, n);
+    // the address table has 2^(bits*q) + 1 slots: keep it below 2^16
+    let bits = bits_for(n);
     let mut qmax = 1;
-    while qmax < 10 && (n as u64).pow(qmax as u32 + 1) <= 20_000 {
+    while qmax < 10 && bits * (qmax + 1) <= 16 {
         qmax += 1;
     }
     let q = if rng.chance(1, 5) { 1 + rng.below(qmax) } else { 1 + rng.below(qmax.min(4)) };
@@ -501,6 +505,31 @@ pub fn gen(tier: &str, rng: &mut Rng, out: &mut Vec<String>) {
         gen_expand(rng, out);
     }
     if tier == "thorough" {
+        // exhaustive small scope for the sparse routines: every subset of the 3x3 grid, every subset of at most 4 points
+        // of the 4x4 grid, k = 1..3 (lcskpp and sdpkpp/union); every pair of strings over {a,b} up to length 4, k = 1, 2
+        let mut grids: Vec<Vec<(u32, u32)>> = vec![];
+        for mask in 0u32..512 {
+            grids.push((0..9).filter(|b| mask >> b & 1 == 1).map(|b| (b / 3, b % 3)).collect());
+        }
+        for mask in 0u32..65536 {
+            if mask.count_ones() <= 4 {
+                grids.push((0..16).filter(|b| mask >> b & 1 == 1).map(|b| (b / 4, b % 4)).collect());
+            }
+        }
+        for g in &grids {
+            for k in 1..=3 {
+                out.push(format!("lcs {} {}", k, show_pairs(g)));
+                out.push(format!("sdp {} 1 1 1 {}", k, show_pairs(g)));
+            }
+        }
+        let strs = enum_seqs(b"ab", 4);
+        for x in &strs {
+            for y in &strs {
+                for k in 1..=2 {
+                    out.push(format!("kmer {} {} {} 1 1 1", k, hex(x), hex(y)));
+                }
+            }
+        }
         // exhaustive small scope: alphabets of 1, 2, 3 symbols, q ≤ 2, all texts of length ≤ 6,
         // every q-gram, and every pattern of length ≤ 3 through `matches` (min_count 1) and `exact_matches`
         for n in 1..=3usize {
@@ -551,7 +580,9 @@ fn check_word(alpha: &[u8], s: &[u8]) -> Result<(), String> {
 
 fn lcs_fields(ms: &[(u32, u32)], k: usize) -> String {
     let r = sparse::lcskpp(ms, k);
-    format!("score={} path={}", r.score, join(&r.path, ","))
+    // dp_vector: one (score, predecessor) cell per match (the vector is allocated with one slot per event)
+    let dp: Vec<u32> = r.dp_vector.iter().take(ms.len()).map(|c| c.0).collect();
+    format!("score={} path={} dp={}", r.score, join(&r.path, ","), join(&dp, ","))
 }
 
 fn sdp_fields(ms: &[(u32, u32)], k: usize, msc: u32, go: i32, ge: i32) -> String {
@@ -608,7 +639,7 @@ pub fn exec(toks: &[&str]) -> Result<String, String> {
             sorted.sort_unstable();
             sorted.dedup();
             let n = sorted.len();
-            if bits_for(n) * q as usize > 64 || (n as f64).powi(q as i32) > 2.0e6 {
+            if bits_for(n) * q as usize > 22 {
                 return Err("index too large".into());
             }
             check_word(&alpha, &text)?;
